@@ -36,6 +36,28 @@ theorem C19_invert (m : Mask α) :
     (Mask.invert m).flag.isConc = m.flag.isConc := by
   simp [Mask.invert]
 
+/-- `~~m == m`: same flag (value *and* staging mode), same payload. -/
+theorem C19_invert_involutive (m : Mask α) : Mask.invert (Mask.invert m) = m := by
+  cases m with
+  | mk v f => cases f with
+    | conc b => cases b <;> rfl
+    | dyn b => cases b <;> rfl
+
+/-- `|` is associative on what a user can observe, and `m | ~m` is always valid with the
+    observation of whichever side is valid; `m ^ m` is never valid. -/
+theorem C19_or_assoc_obs (a b c : Mask α) :
+    (Mask.or (Mask.or a b) c).obs = (Mask.or a (Mask.or b c)).obs := by
+  simp only [obs_or]
+  cases a.obs <;> cases b.obs <;> cases c.obs <;> rfl
+
+theorem C19_or_invert_self (m : Mask α) :
+    (Mask.or m (Mask.invert m)).flag.val = true ∧ (Mask.xor m m).flag.val = false := by
+  refine ⟨?_, ?_⟩
+  · rw [flag_or]; simp [Mask.invert]
+  · rw [flag_xor]; simp
+
+example : Mask.invert (Mask.invert (⟨(3 : Int), .dyn true⟩ : Mask Int)) = ⟨3, .dyn true⟩ := by rfl
+
 /-- `Mask.build` on a bare value wraps it with exactly the given flag. -/
 theorem C19_build_val (v : α) (f : Flag) : Mask.build (.val v) f = ⟨v, f⟩ := rfl
 
